@@ -1990,6 +1990,8 @@ class Exec:
 
     def call(self, fn, args, kwargs, n, env, fr):
         _keep = ("DataArray", "xarray.DataArray", "xr.DataArray", "dict", "isinstance", "len", "copy.deepcopy")
+        if isinstance(fn, Builtin) and fn.name == "len" and self.abstract and len(args) == 1 and isinstance(args[0], Opaque):
+            return self.abs_apply("lib:len", args)
         if isinstance(fn, Builtin) and not (self.abstract and fn.name not in _keep
                                             and (any(isinstance(a, Opaque) for a in list(args) + list(kwargs.values()))
                                                  or _canon_mod(fn.name).startswith("numpy."))):
